@@ -3,8 +3,9 @@
 // Contracts for package buffer, read by /verif/engine (vcgo). Comments only.
 package buffer
 
+// (the last conjunct: a reader error is kept only with no data, so Err reports it from position 0 of an empty buffer)
 //@ pred lexBufInv(z) := z != nil && len(z.buf) >= 1 && z.buf[len(z.buf)-1] == 0 &&
-//@     0 <= z.start && z.start <= len(z.buf)-1 && 0 <= z.pos && z.pos <= len(z.buf)-1
+//@     0 <= z.start && z.start <= len(z.buf)-1 && 0 <= z.pos && z.pos <= len(z.buf)-1 && (z.err != nil ==> len(z.buf) == 1)
 //@ pred lexerInv(z) := lexBufInv(z) && z.start <= z.pos
 
 //@ func Lexer.Err
